@@ -340,6 +340,20 @@ def run(rep):
                                 sample={kk: inp[kk] for kk in ("sizes", "row_perm", "col_perm", "format")})
                         for ob, detail in bad:
                             rep.violation(ob, _sig(sizes, fmt, variant, f" {pname} permutation"), inputs=inp, detail=detail, confirmed=True)
+                        if seed == 0 and pname != "symmetric" and len(sizes) > 1:
+                            # (a) explicitly stored zeros OUTSIDE the diagonal blocks (as in assembled Jacobians whose derivatives evaluate to
+                            # zero): value-wise the same matrix; (b) the same matrix in other units (entries of order 1e10 and 1e-17)
+                            P2 = P.copy()
+                            for _ in range(3):
+                                i, j = rng.randrange(n), rng.randrange(n)
+                                if A[i, j] == 0:
+                                    P2[i, j] = True
+                            for vname, A2, Pv in (("stored zeros outside the blocks", A, P2), ("entries scaled by 1e10", A * 1e10, P), ("entries scaled by 1e-17", A * 1e-17, P)):
+                                bad = check_permuted(mo, A2, Pv, np.array(rp0), np.array(cp0), fmt, False)
+                                inp2 = {"A": A2.tolist(), "stored": Pv.astype(int).tolist(), "sizes": list(sizes), "row_perm": rp0, "col_perm": cp0, "format": fmt}
+                                sw.case((sizes, variant, tuple(rp0), tuple(cp0), seed, fmt, vname), nontrivial=True)
+                                for ob, detail in bad:
+                                    rep.violation(ob, _sig(sizes, fmt, variant, f" {pname} permutation, {vname}"), inputs=inp2, detail=detail, confirmed=True)
 
 
 def replay(data):
